@@ -51,7 +51,9 @@ func newGraph(root *T, x lex) *graph {
 		}
 		var ss []node
 		for _, p := range n.obj.Props {
-			g.firstObjs(p.Type, n.env, &ss)
+			if p.Dis == "" { // a disabled property accepts nothing: no acceptable input passes through it
+				g.firstObjs(p.Type, n.env, &ss)
+			}
 		}
 		g.succ[n] = ss
 		todo = append(todo, ss...)
@@ -197,7 +199,7 @@ func (g *graph) chain(t *T, env *T, n int) (any, int) {
 	depth := 1
 	if n > 1 {
 		for _, p := range t.Props {
-			if _, sat := g.minimal(p.Type, env, map[node]bool{}); sat && g.typeReaches(p.Type, env) {
+			if _, sat := g.minimal(p.Type, env, map[node]bool{}); p.Dis == "" && sat && g.typeReaches(p.Type, env) {
 				c, d := g.chain(p.Type, env, n-1)
 				out[p.Name] = c
 				depth += d
@@ -605,7 +607,16 @@ func (tg *treeGen) genObj(id string, scopeIDs []string, depth, level int) *T {
 	}
 	np := 1 + tg.rng.Intn(1+tg.size)
 	for i := 0; i < np; i++ {
-		props = append(props, P{Name: fmt.Sprintf("p%d", i+1), Req: tg.rng.Intn(10) == 0, Type: tg.genType(scopeIDs, depth, level+1)})
+		pr := P{Name: fmt.Sprintf("p%d", i+1), Req: tg.rng.Intn(10) == 0, Type: tg.genType(scopeIDs, depth, level+1)}
+		if !pr.Req {
+			switch tg.rng.Intn(16) {
+			case 0:
+				pr.Dis = "plain"
+			case 1:
+				pr.Dis = "reason"
+			}
+		}
+		props = append(props, pr)
 	}
 	return objT(id, tag, props)
 }
